@@ -1,6 +1,7 @@
 package props
 
 import (
+	"context"
 	"encoding/base64"
 	"fmt"
 	"github.com/ory/fosite/storage"
@@ -404,7 +405,23 @@ func TestC10_ClientAuthentication(t *testing.T) {
 		}
 		canonical := (transport == "basic" || transport == "body" || transport == "assertion") && proven && (relation == "current" || relation == "rotated" || transport == "assertion")
 
-		// ---- the request itself (otherwise valid)
+		// ---- the request itself (otherwise valid); now and then its context has already ended when it arrives (the caller
+		// went away, a per-request deadline passed): that may fail the request, it proves nothing about any secret
+		ctxEnded := rapid.IntRange(0, 5).Draw(rt, "requestContextAlreadyEnded") == 0
+		if ctxEnded {
+			kind := rapid.SampledFrom([]string{"cancelled", "deadline-passed"}).Draw(rt, "contextEndedBy")
+			w.BaseCtx = func() context.Context {
+				if kind == "cancelled" {
+					ctx, cancel := context.WithCancel(context.Background())
+					cancel()
+					return ctx
+				}
+				ctx, cancel := context.WithDeadline(context.Background(), time.Unix(1, 0))
+				_ = cancel
+				return ctx
+			}
+			h.Label("request-context-already-ended")
+		}
 		var errInfo h.ErrInfo
 		var issued bool
 		w.ResetCalls()
@@ -483,6 +500,7 @@ func TestC10_ClientAuthentication(t *testing.T) {
 			errInfo, issued = r.Err, r.DeviceCode != ""
 		}
 		w.Record = false
+		w.BaseCtx = nil
 		identifiedPublic := c.public && (form.Get("client_id") == c.id || transport == "basic" || transport == "basic-raw" || transport == "both" || transport == "both-no-id" || transport == "assertion" || transport == "assertion-other-method")
 		var writes []string
 		for _, call := range w.Calls {
@@ -528,13 +546,13 @@ func TestC10_ClientAuthentication(t *testing.T) {
 		if !proven {
 			if issued || errInfo.OK() {
 				h.Violate(rt, "C10/unproven-request-processed", "request processed in the name of a confidential client without proof of a valid secret / assertion through a permitted transport: %s", desc)
-			} else if authPassed && !timeDefect {
+			} else if authPassed && !timeDefect && !ctxEnded {
 				h.Violate(rt, "C10/unproven-request-passed-authentication", "client authentication let an unproven request through (answered %v, not invalid_client / invalid_request): %s", errInfo, desc)
 			}
 			if len(writes) > 0 {
 				h.Violate(rt, "C10/unproven-request-changed-tokens", "rejected request modified code/token records %v: %s", writes, desc)
 			}
-			if endpoint == "par" && !errInfo.OK() && errInfo.Name != "invalid_client" && !timeDefect {
+			if endpoint == "par" && !errInfo.OK() && errInfo.Name != "invalid_client" && !timeDefect && !ctxEnded {
 				h.Violate(rt, "C10/par-wrong-error-class", "PAR authentication failure answered %v, want invalid_client: %s", errInfo, desc)
 			}
 			// the target of a rejected revocation / refresh is untouched
@@ -546,7 +564,7 @@ func TestC10_ClientAuthentication(t *testing.T) {
 			}
 			return
 		}
-		if canonical && transport != "both" {
+		if canonical && transport != "both" && !ctxEnded {
 			if !authPassed {
 				h.Violate(rt, "C10/valid-credentials-refused", "valid credentials through a permitted transport were refused: %s %s", desc, errInfo.Hint)
 			}
